@@ -297,6 +297,24 @@ where
 				ValueType::Arraylike { element_type: b } => a.is_like(b),
 				_ => self == other,
 			},
+			// The element of an array can be a structure that is accessed
+			// through a member before its name is resolved.
+			ValueType::Struct { identifier: a, .. } => match other
+			{
+				ValueType::UnresolvedStructOrWord { identifier: None } => true,
+				ValueType::UnresolvedStructOrWord {
+					identifier: Some(b),
+				} => a == b,
+				_ => self == other,
+			},
+			ValueType::Word { identifier: a, .. } => match other
+			{
+				ValueType::UnresolvedStructOrWord { identifier: None } => true,
+				ValueType::UnresolvedStructOrWord {
+					identifier: Some(b),
+				} => a == b,
+				_ => self == other,
+			},
 			_ => self == other,
 		}
 	}
